@@ -243,3 +243,14 @@ def matches_known(k, op, il, mres, tag):
 def generate(ctx):
     """T-gen for the detection fragment (Relic.Props.C11.detect_table_is_current): lean/Relic/Generated/Magic.lean"""
     return [g.replace("Relic.Props.C01.generated_rules_eq", "Relic.Props.C11.detect_table_is_current") for g in _magic.generate(ctx)[:1]]
+
+
+# ---- compression layer (checklib/models/chttp.py): CHTTP ops run as a second correspondence under the pseudo-property C11CH ----
+import chttp as _chttp
+UNPROVED = UNPROVED + _chttp.UNPROVED_C11
+
+
+def run(ctx):
+    import runner
+    cov, f, k = ({}, [], []) if _chttp.replay_only_chttp(ctx) else runner.correspondence("C11", ctx, __import__("props.c11", fromlist=["x"]))
+    return _chttp.second(ctx, "C11", "C11CH", cov, f, k)
